@@ -192,7 +192,10 @@ var specs = []spec{
 		StmtPoints:  []string{"Muxer.Close", "muxerStream.close"},
 		Rule:        "all interleavings with at most b deviations (b=2 with two or three requesters, 3 (thorough 4) with one, unbounded with none) of a writer that feeds k frames and then calls Close with 0..2 (thorough 0..3) requests blocked inside the muxer (multivariant / media playlist before data, blocking reload, preload hint) and with clients that stop taking a response body (hint, part, segment, init, playlist) until the writer has finished, from several points of the muxer's life (before data, mid-segment, mid-part, window slid), RAM and Directory storage, all three variants; followed by a sequential epilogue of one request of every kind; plus sequential scenarios in which the k-th segment / part rotation fails on storage, or in which the init segment cannot be rebuilt from parameter sets that do not parse (H264 / H265 / AV1), before Close (every k; the muxer mutex must be free, Close must return, later requests must be answered); distinct = distinct (scenario, response statuses and completion points)",
 		Assumptions: schedAssumptions},
-	{ID: "C20", Pkg: ".", Level: "model_checking", Instrument: true, RacePass: true, Procs: 1,
+	{ID: "C20-e2e", Prop: "C20", HarnessKey: "C20-e2e", Hidden: true, Pkg: ".", Level: "model_checking", Instrument: true, Procs: 1,
+		AtomicRanges: []string{"clientStreamProcessorMPEGTS.joinTrackProcessors"},
+		Assumptions:  schedAssumptions},
+	{ID: "C20", Pkg: ".", Level: "model_checking", Instrument: true, RacePass: true, Procs: 1, Also: []string{"C20-e2e"},
 		AccessTypes: []string{"*"}, AccessTypePkgs: []string{"pkg/codecs"},
 		Rule:        "all interleavings with at most b deviations (preemptions / non-default select preferences; b=3 quick, 5 thorough, unbounded for the smallest scenarios; points at every mutex acquire/release, channel close, select) of a producer (k pushes, waitUntilSizeIsBelow(n) after each), a consumer (m pulls) and an optional canceller on the real clientSegmentQueue, with and without the end-of-stream marker (push(nil)), with bursts of 2-4 pushes before a wait (a successful wait leaves at most n segments queued), plus end-to-end look-ahead scenarios with the real downloader and processor (VOD, live, and live playlists carrying Low-Latency tags that do not select the Low-Latency mode: server control without CAN-BLOCK-RELOAD plus a preload hint, CAN-BLOCK-RELOAD without a hint); every explored execution is also checked by the happens-before race monitor (every field of every struct of the package); distinct = distinct (scenario, final observation) pairs",
 		Assumptions: schedAssumptions},
